@@ -143,6 +143,9 @@ func checkSub(c Case, file *syntax.File, dopts norm.DumpOpts) string {
 	if vh.Excluded("C01-lone-empty-compound") && cd.kind != "word" && synex.HasEmptyCompound(cd.n) {
 		return ""
 	}
+	if vh.Excluded("C01-keeppadding-lone-node") && c.Cfg.KeepPadding {
+		return ""
+	}
 	if vh.Excluded("C01-lone-nested-subshell") && cd.kind != "word" && synex.LoneSubshellParen(cd.n) {
 		return ""
 	}
